@@ -19,6 +19,12 @@ CLAIMS = {
  "C17": ("Refinement proof of the ring buffer (container + start/end/len cursors modulo capacity, panicking indexing) to a bounded sequence: invariant Inv preserved from new by push, push_force, pop (both kinds), flush; abs commutes with each (push ignored when full, forced push drops the oldest, queue pops oldest / stack pops newest), get per kind = position in the live items, iteration = live items oldest first, printing = live items newest first, size <= capacity; INPUT.NEXT/READ/GET and OUTPUT.WRITE theorems over the abstract queues. Correspondence: all words of length 7/9 over {push, push_force, pop, flush} for capacities 1..4 and both kinds, random long sequences, INPUT/OUTPUT instructions by NAME.",
          "Capacity 0 is outside the property. Private cursor fields are not observable: the Layer-0 model is run in lockstep from new over whole sequences.",
          "Lean 4 refinement proof (ring buffer -> bounded sequence) + exhaustive small-sequence correspondence"),
+ "C06": ("Theorems: step_list (a list is unpacked first element on top), ctrl_sound (EXEC.IF, CODE.IF, EXEC.K/S/Y/DUP, CODE.DO/DO*/QUOTE equal the documented rearrangement for every state), exec_loop_runs / exec_loop_runs_n: for every body satisfying the frame contract BodyOk and every n, EXEC.LOOP from index (0,n) reaches the continuation with the body's effect applied for c = 0..n-1 in order and index and loop code removed (induction on n-c, no bound); loop_satisfies_BodyOk (arbitrary nesting), index_current_bodyOk + exec_loop_index_current (contract satisfiable, concrete corollary), intvector_loop_runs (once per element, in order, element on INTEGER, nothing left). CODE.LOOP: code_loop_runs_n_partial (n reached) and the negation k01_code_loop_violates proved by kernel evaluation of a witness run.",
+         "CODE.LOOP violates the property on the pinned tree (shape pinned by a unit test): reported as KNOWN-FINDING K01. The loop theorems are conditional on the body contract, which is the documented semantics.",
+         "Lean 4 proof by induction over iteration count with a body frame contract + executed loop-program correspondence"),
+ "C07": ("Theorems: lookup_insert_self / lookup_insert_other / bindings_last_write_wins (the binding table is a function update), ident_step (a name step is exactly the documented case split), ident_unbound_to_name_stack, ident_bound_pushes_exec, use_bound_literal (two steps put the value back on its stack), quoted_name_goes_to_name_stack (exactly the next name, bound or not, flag cleared), quote_survives_literal / quote_survives_list, define_meets_spec + define_binds + define_then_lookup for the eight DEFINE instructions, code_definition_returns_binding. Correspondence: name-dense programs single-stepped, DEFINE/QUOTE/DEFINITION by NAME.",
+         "The HashMap is modelled as a sorted association list with unique keys (iteration order is never observed by these instructions).",
+         "Lean 4 proof (function-update view of bindings, step equations) + executed step-by-step correspondence"),
  "C16": ("Refinement proof: every public PushStack method (Layer 0: Vec, top at the end, size-(i+1) index arithmetic that can panic) never panics and commutes with abs=reverse to the plain-sequence operation (Layer 1), for all element types, stacks and arguments (24 theorems). Correspondence: random and exhaustive operation sequences on the real PushStack<Item>.",
          "swap(i,j) (raw Vec indices) is outside the property. Vec::remove/insert/split_off/index panics are modelled, not verified.",
          "Lean 4 refinement proof (Vec model -> plain sequence) + executed model/implementation correspondence"),
